@@ -28,9 +28,13 @@ RECURSIVE Closed(_, _)
 Closed(body, lvl) == UNION {IF body[i].e = "opt" THEN {} ELSE {<<KindOf(body[i].h.kw), lvl, body[i].h.par # <<>>, Cardinality({j \in 1..Len(body[i].body) : body[i].body[j].e = "opt"})>>} \cup Closed(body[i].body, lvl + 1) : i \in 1..Len(body)}
 SkelT == <<[i \in 1..Len(stack) |-> <<KindOf(stack[i].h.kw), stack[i].h.par # <<>>, Cardinality({j \in 1..Len(stack[i].body) : stack[i].body[j].e = "opt"})>>],
            cnt.secs, cnt.opts, UNION {Closed(stack[i].body, i) : i \in 1..Len(stack)}>>
-\* quick: frames (kind, parent named), counts, which kinds of sections are closed at which level
-RECURSIVE ClosedQ(_, _)
-ClosedQ(body, lvl) == UNION {IF body[i].e = "opt" THEN {} ELSE {<<KindOf(body[i].h.kw), lvl>>} \cup ClosedQ(body[i].body, lvl + 1) : i \in 1..Len(body)}
+\* quick: open frames (kind, parent named), counts, and for every object built so far its kind, its level and
+\* whether any of its properties differs from the default (an option that took effect / an inherited value)
+IsTopId(i) == \E j \in 1..Len(heap[1].items) : heap[1].items[j].id = i
+RECURSIVE Skipped(_)
+Skipped(body) == \E i \in 1..Len(body) : body[i].e = "sec" /\ (KindOf(body[i].h.kw) = "" \/ Skipped(body[i].body))
 SkelQ == <<[i \in 1..Len(stack) |-> <<KindOf(stack[i].h.kw), stack[i].h.par # <<>>>>],
-           cnt.secs, cnt.opts, UNION {ClosedQ(stack[i].body, i) : i \in 1..Len(stack)}>>
+           cnt.secs, cnt.opts, Skipped(Fold(stack)),
+           {<<heap[i].kind, IsTopId(i), heap[i].r # Def2T[heap[i].kind]>> : i \in 2..Len(heap)},
+           heap[1].r.alias # <<>> \/ heap[1].r.font # <<>>>>
 =============================================================================
